@@ -271,6 +271,20 @@ fn run_script(s: &Script, st: &mut Stats) -> Result<(), String> {
                 }
                 Op7::Search(k, positional) => {
                     search(&b, &tf, *k as u64, *positional)?;
+                    if *k % 16 == 0 {
+                        // the engine's own wall-clock timeout with a budget that expires at once or
+                        // within a millisecond (the oracle does not depend on when it fires)
+                        let t = chess_engine::DurationTimeout::new(std::time::Duration::from_micros([0u64, 1, 900, 2500][(*k as usize / 16) % 4]));
+                        let mut e = chess_engine::Engine::default();
+                        e.positional = *positional;
+                        let (mv, sc) = e.search(&b, &tf, &t);
+                        let _ = format!("{sc:?}");
+                        if let Some(m) = mv {
+                            if !b.is_legal(m) {
+                                return Err(format!("search under DurationTimeout returned {m}, which the board calls illegal"));
+                            }
+                        }
+                    }
                     fams.insert("search");
                 }
                 Op7::LongSearch(sel) => {
